@@ -167,7 +167,8 @@ _PKG_METHODS = _load_pkg_methods()
 
 # named constants of third-party / standard modules (trusted values)
 EXT_CONSTANTS = {"soundfile.SEEK_SET": 0, "soundfile.SEEK_CUR": 1, "soundfile.SEEK_END": 2, "os.SEEK_SET": 0, "os.SEEK_CUR": 1, "os.SEEK_END": 2,
-                 "io.SEEK_SET": 0, "io.SEEK_CUR": 1, "io.SEEK_END": 2}
+                 "io.SEEK_SET": 0, "io.SEEK_CUR": 1, "io.SEEK_END": 2, "os.pardir": "..", "os.curdir": ".", "os.sep": "/", "os.path.sep": "/",
+                 "os.path.pardir": "..", "os.path.curdir": ".", "os.extsep": "."}
 # leading positional parameters of methods the package calls (pandas / shapely / numpy), so that `m(label=v, side="right")` is `m(v, "right")`
 METHOD_SIGNATURES = {
     "get_slice_bound": ("label", "side"),
@@ -913,6 +914,16 @@ class Evaluator:
                         items = self._dict_set(items, ("const", k.arg), v_)
                 self.env[nm] = fold_sub(("dict", items))
                 return live
+        if isinstance(st, ast.Expr) and isinstance(st.value, ast.Call) and isinstance(st.value.func, ast.Attribute) \
+                and st.value.func.attr == "setdefault" and isinstance(st.value.func.value, ast.Name) and len(st.value.args) == 2 \
+                and not st.value.keywords and isinstance(st.value.args[0], ast.Constant) and isinstance(st.value.args[0].value, str):
+            # `kwargs.setdefault("k", v)` on the function's own **kwargs: from here on kwargs is {"k": v, **kwargs} (the caller's wins)
+            nm = st.value.func.value.id
+            cur = self.env.get(nm)
+            if cur is not None and cur[0] == "param" and cur[1].startswith("**"):
+                v_ = self.ev(st.value.args[1], live)
+                self.env[nm] = ("dict", ((("const", st.value.args[0].value), v_), (("dstar",), cur)))
+                return live
         if isinstance(st, ast.Assign) and len(st.targets) == 1 and isinstance(st.targets[0], ast.Subscript) \
                 and isinstance(st.targets[0].value, ast.Name):
             # `d = {..}` ... `d["k"] = v` on the same path: d is the display with that item set
@@ -1630,6 +1641,15 @@ class Evaluator:
                 if isinstance(s.node, ast.FunctionDef) and any(ast.unparse(d) == "classmethod" for d in s.node.decorator_list):
                     return ("attr", base, n.attr)
                 return sym_term(s)
+            # a constant kept as a class attribute of a plain helper class (not an Enum member, not a model field)
+            ci_ = self.index.class_by_qual(base[1]) if ":" in base[1] else None
+            if ci_ is not None and not ci_.bases and not ci_.ext_bases:
+                d_ = [st_ for st_ in ci_.node.body if isinstance(st_, (ast.Assign, ast.AnnAssign))
+                      and any(isinstance(t_, ast.Name) and t_.id == n.attr for t_ in (st_.targets if isinstance(st_, ast.Assign) else [st_.target]))]
+                if len(d_) == 1 and isinstance(d_[0].value, ast.Constant) and not any(
+                        isinstance(x_, (ast.Assign, ast.AugAssign)) and any(isinstance(t_, ast.Attribute) and t_.attr == n.attr for t_ in (x_.targets if isinstance(x_, ast.Assign) else [x_.target]))
+                        for x_ in ast.walk(ci_.module.tree)):
+                    return ("const", d_[0].value.value)
             return ("attr", base, n.attr)
         return ("attr", base, n.attr)
 
@@ -1965,6 +1985,9 @@ class Evaluator:
             named = [(k_, v_) for k_, v_ in named if not (k_ == "dtype" and v_ in (("builtin", "float"), ("ext", "numpy.float64"), ("ext", "numpy.double"),
                                                                                   ("const", "float64"), ("const", "float"), ("const", None)))]
         if not named and not spreads and not any(a[0] == "star" for a in args):
+            if f in (("builtin", "max"), ("builtin", "min")) and f[1] not in self.env and len(args) == 1 and args[0][0] in ("tuple", "list") \
+                    and len(args[0][1]) >= 2 and not any(c_[0] == "star" for c_ in args[0][1]):
+                args = list(args[0][1])  # max((a, b)) is max(a, b)
             if f == ("builtin", "range") and "range" not in self.env:
                 if len(args) == 3 and args[2] == ("const", 1):
                     args = args[:2]
@@ -3774,8 +3797,29 @@ def normalise_find_first(sm: "Summary") -> "Summary":
                     # the call that computes the returned value happens once, for the element found
                     out.append(Event("call", AND(*pre, found), subst(e.term, {el: n}), e.node, e.loops[:-1], e.idx, e.handlers, e.in_handler))
                 continue
-            if done and e.idx > r.idx and all(c in conjuncts(e.live) for c in pre):
-                e = dataclasses.replace(e, live=AND(e.live, NOT(found)))
+            if done and e.idx > r.idx:
+                cj_ = conjuncts(e.live)
+                if all(c in cj_ for c in pre):
+                    e = dataclasses.replace(e, live=AND(e.live, NOT(found)))
+                else:
+                    # the path through the loop may be one alternative of a join (`if xs: <loop>` followed by a common return):
+                    # only that alternative learns that nothing was found
+                    flat = [c for c in cj_ if c[0] != "or"]
+                    new_cj, hit = [], False
+                    for c in cj_:
+                        if c[0] == "or":
+                            alts = []
+                            for d in c[1]:
+                                if all(p_ in flat + list(conjuncts(d)) for p_ in pre):
+                                    alts.append(AND(d, NOT(found)))
+                                    hit = True
+                                else:
+                                    alts.append(d)
+                            new_cj.append(OR(*alts))
+                        else:
+                            new_cj.append(c)
+                    if hit:
+                        e = dataclasses.replace(e, live=AND(*new_cj))
             out.append(e)
         evs = out
         changed = True
